@@ -47,6 +47,9 @@ DISCHARGE = {
     IO + 'IoLoop::run_amqp_handshake|panic|unreachable#0': ('rule', 'handshake_done_states'),
     IO + 'IoLoop::run_connection|panic|unreachable#0': ('rule', 'connection_done_states'),
     IO + 'IoLoop::run_tls_handshake|lib|Option::unwrap#0': ('rule', 'tls_state_some_when_done'),
+    IO + 'channel_slots::ChannelSlots::insert_unused_channel_id|assert|Overflow(Add)#0': ('rule', 'never_used_counter_cannot_overflow'),
+    IO + 'connection_state::ConnectionState::client_exception|assert|Overflow(Sub)#0': ('rule', 'reply_text_truncation_safe'),
+    IO + 'connection_state::ConnectionState::client_exception|lib|String::truncate#0': ('rule', 'reply_text_truncation_safe'),
     IO + 'channel_slots::ChannelSlots::set_channel_max|panic|assert#0': ('rule', 'channel_max_set_before_any_allocation'),
     # ---- serialize
     '<serialize::OutputBuffer as std::ops::Index<std::ops::RangeFrom<usize>>>::index|lib|Index::index#0':
